@@ -37,7 +37,7 @@ type neighbours struct {
 
 func monC19(c *drv.Ctx) {
 	// (1) buffer transport == the buffer: random histories through either handle
-	c.Stage("buffer-histories", c.Pick(10000, 1000000), false, func(cs *drv.Case) {
+	c.Stage("buffer-histories", c.Pick(60000, 1500000), false, func(cs *drv.Case) {
 		r := cs.R
 		nb := &neighbours{seq: 0x1122334455667788, tail: [4]uint64{1, 2, 3, 4}}
 		buf := &nb.in
